@@ -32,6 +32,7 @@ var structLines = []string{
 	"[TestGhost - 7]", "[TestA - 1] ", "[TestA - 1", "TestA - 1]", "[BenchmarkX - 1]", "[TestA - x]", "[]", "[Test - ]",
 	"see [TestA - 1]", "pinned by [TestB - 1]", "[TestA - 1] trailing text", "--- a/x.txt", "-----", "---\t",
 	"  indented", "trailing  ", "%d %s %v", "100%", "{\"a\": 1}", "- item", "key: value", "# comment", "...",
+	"total: $100", "${name} $1 $$ $0", "PATH=$HOME/bin", "\\1 \\0 \\n", "a.*b|c", "(?i)x", "^anchor$",
 }
 
 func (g *fgen) opaqueLine() string {
